@@ -683,15 +683,15 @@ def rule_k1_k2(prog: Program, col: Collector) -> None:
     none_r = [r for r in rets if r.value == ("const", None)]
     wit = [r for r in rets if r.value[0] == "tuple"]
     col.check(len(none_r) == 1 and not any(f[0] in ("for", "if") for f in none_r[0].ctx), ref.where(), ref.short, "None only after all loops", construct="smod-none",
-              necessity="")
+              necessity="returning None before every pair (T, S, i) was examined accepts games that are not supermodular")
     okw = False
     for r in wit:
         g = [f for f in r.ctx if f[0] == "if"]
         if g and g[-1][2] is True and g[-1][1][0] == "cmp" and g[-1][1][1] == "<":      # canonical orientation: rhs + tol < lhs
             l, rr = g[-1][1][3], g[-1][1][2]
             okw = rr[0] == "bin" and rr[1] == "+" and rr[3] == ("param", "tolerance") and l[0] == "bin" and l[1] == "-" and rr[2][0] == "bin" and rr[2][1] == "-"
-    col.check(okw, ref.where(), ref.short, "witness returned iff (v(S+i) - v(S)) > (v(T+i) - v(T)) + tolerance", construct="smod-compare", necessity="")
+    col.check(okw, ref.where(), ref.short, "witness returned iff (v(S+i) - v(S)) > (v(T+i) - v(T)) + tolerance", construct="smod-compare", necessity="supermodularity is v(S+i) - v(S) <= v(T+i) - v(T) for S within T: the witness must be returned exactly when this fails by more than the tolerance")
     loops = [e for e in ft.of_kind("loop") if e.iter is not None]
     okl = any(is_call_to(e.iter, P + "coalitions.all_coalitions") for e in loops) and \
         any(is_call_to(e.iter, "filter") and any(is_call_to(s, P + "coalitions.get_sub_coalitions") for s in subterms(e.iter)) for e in loops)
-    col.check(okl, ref.where(), ref.short, "T over all coalitions, S over the sub-coalitions of T except T itself", construct="smod-loops", necessity="")
+    col.check(okl, ref.where(), ref.short, "T over all coalitions, S over the sub-coalitions of T except T itself", construct="smod-loops", necessity="the definition quantifies over all T and all proper sub-coalitions S of T")
